@@ -167,6 +167,15 @@ Definition produce_cancelled (conv : row -> result) (res : option (list row)) (k
   | None => []
   end ++ repeat SErr e ++ [SClose].
 
+(* Known finding S11 (sqlite, DESIGN section 4): the channel has one slot and the producer's error sends are
+   unconditional (`results <- Stream{Err}`), so what the producer gets to do depends on the consumer. A
+   consumer that takes [taken] elements and then stops reading lets the producer complete taken + 1 sends
+   (the last one stays in the slot); the next send blocks for ever, and with it the deferred close and the
+   return of the connection. [tr] is the event list the producer wants to emit (sends, then SClose). *)
+Definition emitted_when_abandoned (tr : list sev) (taken : nat) : list sev :=
+  let sends := removelast tr in
+  if Nat.leb (length sends) (taken + 1) then tr else firstn (taken + 1) sends.
+
 (* ------------------------------------------------------------------ cosmosdb Exists and the point read *)
 
 (* what ReadItem(key(id), id) answered: the item, an HTTP error status (an azcore.ResponseError), or an error
